@@ -166,11 +166,16 @@ func corsRequests(hostile bool, c corsCfg) []corsReq {
 			addH(strings.ToUpper(h))
 			addH(h[:len(h)-1])
 			addH(h[1:])
+			addH(strings.Replace(h, "i", "\u0130", 1)) // LATIN CAPITAL I WITH DOT ABOVE lower-cases to a plain i but is no case variant of it
+			addH(strings.Replace(h, "I", "\u0130", 1))
+			addH(strings.Replace(strings.Replace(h, "k", "\u212a", 1), "K", "\u212a", 1)) // KELVIN SIGN
 			if len(h) > 4 {
 				addH(h[2 : len(h)-2])
 			}
 		}
 	}
+	addH("\nX-Bad") // an empty first field line, the foreign name on the second
+	addH(" \nX-Bad\n")
 	addH("Content-Type\nX-Bad") // the list spread over two field lines: an allowed name first, a foreign one on the second line
 	addH("X-Bad\ncontent-type")
 	if len(named) > 1 {
@@ -182,7 +187,7 @@ func corsRequests(hostile bool, c corsCfg) []corsReq {
 		addH(named[len(named)-1] + "," + named[0])
 	}
 	for _, m := range []string{"GET", "HEAD", "POST", "PUT", "OPTIONS", "TRACE", "", "BOGUS"} { // "" and BOGUS: served by no route, always 405/404
-		for _, p := range []string{"/r", "/w", "/p", "/none", "*", "" /* absolute-form target without a path */} {
+		for _, p := range []string{"/r", "/w", "/p", "/none", "*", "" /* absolute-form target without a path */, "/boom"} {
 			for _, o := range origins {
 				for _, am := range []string{"", "GET", "POST", "PUT", "get", "HEAD", "OPTIONS", "DELETE"} {
 					for _, ah := range acrhs {
@@ -250,7 +255,7 @@ type corsItem struct {
 
 func corsRouter(c corsCfg) (r *Router, pv any, bad bool) {
 	pv, bad = Guard(func() {
-		var opts []mux.Option
+		opts := []mux.Option{mux.WithStatusRecovery(500)}
 		if c.Table == 1 {
 			opts = append(opts, mux.WithTrace(hv.TraceH()))
 		}
@@ -270,15 +275,24 @@ func corsRouter(c corsCfg) (r *Router, pv any, bad bool) {
 			}
 			r = NewRouter(RouterCfg{}, append(opts, c.option())...)
 		}
+		r.Handle("/boom", hv.Route("hb", hv.Step{Op: "Panic"}), nil, "GET") // answered by the recovery option: still a served method
 		if c.Table == 0 {
 			r.Handle("/r", hv.Route("hr"), nil, "GET")
 			r.Handle("/w", hv.Route("hw"), nil, "GET", "POST")
 			r.Handle("/p", hv.Route("hp"), nil, "POST") // no GET: HEAD is not served here
 			return
 		}
-		// same live table, reached the long way round
+		// same live table, reached the long way round, with requests in between (whatever a request leaves behind
+		// must not outlive the table change that follows it)
+		prime := func(method, path, acrm string) {
+			for _, origin := range []string{"https://a", "https://evil"} {
+				hv.Serve(r, hv.Req{Method: method, Path: path, Header: map[string]string{"Origin": origin, "Access-Control-Request-Method": acrm, "Access-Control-Request-Headers": "content-type"}})
+			}
+		}
 		r.Handle("/r", hv.Route("hr"), nil, "GET")
 		r.Handle("/r", hv.Route("hr2"), nil, "POST")
+		prime("OPTIONS", "/r", "POST")
+		prime("POST", "/r", "")
 		r.Handle("/w", hv.Route("hw"), nil, "GET")
 		r.Handle("/wx", hv.Route("hwx"), nil, "PUT") // splits the node of /w
 		r.Handle("/w", hv.Route("hw"), nil, "POST")
@@ -288,6 +302,8 @@ func corsRouter(c corsCfg) (r *Router, pv any, bad bool) {
 		r.Handle("/none", hv.Route("hn"), nil, "GET")
 		r.Remove("/none")
 		r.Handle("/p", hv.Route("hp0"), nil, "GET", "POST")
+		prime("OPTIONS", "/p", "GET")
+		prime("OPTIONS", "/p", "HEAD")
 		r.Remove("/p", "GET")
 	})
 	return
@@ -350,6 +366,7 @@ func corsJob(raw json.RawMessage) (any, error) {
 	t.Handle("/r", "hr", nil, "GET")
 	t.Handle("/w", "hw", nil, "GET", "POST")
 	t.Handle("/p", "hp", nil, "POST")
+	t.Handle("/boom", "hb", nil, "GET")
 	anyHeaders := contains(c.Headers, "*")
 	for _, q := range corsRequests(it.Prop == "C05", c) {
 		o := hv.Serve(r, q.req())
